@@ -13,4 +13,16 @@ theorem holds_no_lock_wedge (s : State) (h : Reachable Facts.muxBroker s) : ¬ L
 theorem holds_no_stream_leaks (s : State) (h : Reachable Facts.muxBroker s) (sid : Nat) : ¬ Leaked s sid :=
   no_stream_leaks _ facts_good s h sid
 
+/-- **about five seconds**: at the extracted windows, a waiting `Accept` is due at most 5000 ms from now, a parked
+stream's `timeoutWait` likewise, and a due timer's step is enabled -/
+theorem holds_due_within_five_seconds (s : State) (h : Reachable Facts.muxBroker s) :
+    (∀ g (a : Acc), s.accs g = some a → a.pc = .wait →
+        a.deadline ≤ s.now + 5000 ∧ (a.deadline ≤ s.now → (step Facts.muxBroker s (.accTimeout g)).isSome)) ∧
+    (∀ t (w : Tw), s.tws t = some w → w.pc = .wait →
+        w.deadline ≤ s.now + 5000 ∧ (w.deadline ≤ s.now → (step Facts.muxBroker s (.twTimer t)).isSome)) := by
+  have hw : Facts.muxBroker.acceptWindow = 5000 ∧ Facts.muxBroker.expiryWindow = 5000 := by decide
+  have := due_within_window _ facts_good s h
+  rw [hw.1, hw.2] at this
+  exact this
+
 end GoPlugin.Instance.C09
